@@ -8,6 +8,7 @@ def main(argv):
     prop = argv[0].upper()
     tier = os.environ.get('VERIF_TIER') or 'quick'
     replay = None
+    variant = None
     rest = argv[1:]
     while rest:
         a = rest.pop(0)
@@ -15,14 +16,31 @@ def main(argv):
             tier = a
         elif a == '--replay':
             replay = rest.pop(0)
+        elif a == '--variant':
+            variant = rest.pop(0)
         else:
             print('unknown argument', a); return 2
     from mc import det, core
     det.scratch_home()
     mod = importlib.import_module('mc.checks.%s' % prop.lower())
+    if variant and not replay:
+        return core.variant_child(mod, tier, variant)
     if replay:
         body = json.load(open(replay))
+        envname = body.get('case', {}).get('environment') if isinstance(body.get('case'), dict) else None
+        if envname and os.environ.get('VERIF_VARIANT') != envname:
+            # found in another environment: replay it there
+            import subprocess
+            var = [v for v in getattr(mod, 'ENV_VARIANTS', []) if v['name'] == envname]
+            if var:
+                cmd, env = core.variant_cmd(var[0], prop, ['--replay', replay])
+                p = subprocess.run(cmd, env=env, preexec_fn=core._variant_preexec(var[0]), cwd=core.VERIF)
+                return p.returncode
         vs = mod.replay(core.dec(body['case']), body.get('seed', core.SEED))
+        if os.environ.get('VERIF_VARIANT'):
+            for v in vs:
+                v['site'] = '%s@%s' % (v['site'], os.environ['VERIF_VARIANT'])
+                v['signature'] = '%s|%s|%s|%s' % (v['property'], v['component'], v['kind'], v['site'])
         same = [v for v in vs if v['signature'] == body['signature']]
         for v in (same or vs)[:1]:
             print('VIOLATION property=%s replay=%s' % (prop, replay))
@@ -36,6 +54,7 @@ def main(argv):
     if hasattr(mod, 'main'):
         return mod.main(tier)
     total = core.run_units(mod, tier)
+    core.run_variants(mod, tier, total)
     extra = mod.finish(total, tier) if hasattr(mod, 'finish') else None
     return core.report(mod, tier, total, time.time() - t0, extra_cov=extra)
 
